@@ -173,8 +173,44 @@ def search(ctx, broken, corr_broken):
                 exp = monitor(segs[k])
                 if got[k] != exp:
                     return [_viol("interleaving", [(ks[j], f) for j, f in h], exp, got[k], stream=ks[k])]
+    # stale frames: a late duplicate of a frame of the PREVIOUS message (other counter) arriving in the middle of the next one is ignored
+    for trial in range(1500):
+        k = rnd.randrange(len(KEYS))
+        seq = rnd.randrange(8)
+        p1, fr1, _ = gen_segment(rnd, seq, rnd.choice([13, 14, 20, 21, 28]), "order")
+        seq2 = (seq + rnd.choice([1, 4, 4, 7])) % 8
+        p2, fr2, _ = gen_segment(rnd, seq2, rnd.choice([13, 14, 20, 21, 28]), "order")
+        arr1 = fr1 if rnd.random() < 0.5 else fr1[:-1]                      # the first message complete, or its last frame lost
+        stale = rnd.choice(fr1[1:])
+        pos = rnd.randrange(1, len(fr2))
+        arr2 = fr2[:pos] + [stale] + fr2[pos:]
+        d = harness.fast_decoder()
+        got = [harness.fast_feed(d, KEYS[k], f)[0] for f in arr1 + arr2]
+        exp = monitor([(p1, fr1, arr1)]) + ["none" if i == pos else e for i, e in enumerate(_with_gap(monitor([(p2, fr2, fr2)]), pos))]
+        n += 1
+        if got != exp:
+            return [_viol("stale-frame", [(k, f) for f in arr1 + arr2], exp, got, stream=k)]
+    # two decoder objects: frames given to one never complete, restart or swallow a message of the other
+    for trial in range(300):
+        k = rnd.randrange(len(KEYS))
+        seq = rnd.randrange(8)
+        p1, fr1, _ = gen_segment(rnd, seq, rnd.choice([13, 20, 28]), "order")
+        a, b = harness.fast_decoder(), harness.fast_decoder()
+        cut = rnd.randrange(1, len(fr1))
+        got = [harness.fast_feed(a, KEYS[k], f)[0] for f in fr1[:cut]] + [harness.fast_feed(b, KEYS[k], f)[0] for f in fr1[cut:]] + \
+              [harness.fast_feed(a, KEYS[k], f)[0] for f in fr1[cut:]]
+        exp = ["none"] * len(fr1) + ["none"] * (len(fr1) - cut - 1) + ["complete:" + harness.hx(p1)]
+        n += 1
+        if got != exp:
+            return [{"key": "C04/two-decoders", "what": f"two decoder objects: the first got frames 0..{cut - 1} of a message, the second the rest, then the first the rest: results {got}, expected {exp}",
+                     "replay": {"kind": "two-decoders", "seed": ctx["seed"]}}]
     LAST_SEARCH_CANDIDATES = n
     return []
+
+
+def _with_gap(lst, pos):
+    """the expected results of the frames of a message with one extra (stale) arrival inserted at `pos`"""
+    return lst[:pos] + ["none"] + lst[pos:]
 
 
 def _viol(kind, history, exp, got, stream=None):
@@ -185,6 +221,9 @@ def _viol(kind, history, exp, got, stream=None):
 
 def replay(rp):
     harness.load_repo()
+    if rp.get("kind") == "two-decoders":
+        v = search({"seed": rp.get("seed", 0), "tier": "quick", "repo": common.REPO}, [], [])
+        return not v, (v[0]["what"] if v else "holds now")
     if rp.get("kind") != "fast-history":
         return False, "not an input replay: " + str(rp.get("broken_theorems") or rp.get("broken_correspondence"))[:500]
     d = harness.fast_decoder()
